@@ -3,6 +3,7 @@ import math
 from qlib import (AnalysisBroken, strip, isnode, walk, is_call, norm_cmp, var_ref, is_null, const_val, short, call_obj,
                   expr_key, field_name, is_this_field)
 from rules.common import (core_and_neg, tnode, other, cpos, npos, branches_on_call, in_subtree, need_some, straight_after)
+from rules.c02 import cmp_sides as cmp_sides_
 
 EXPLANATION = ("Timestamp formatter tables. R1 (fractional seconds, exhaustive over the AdditionalSpecifier enumerators): the "
                "specifier's name is '%' + enumerator name and specifier_length characters long, the constructor selects enumerator e "
@@ -175,6 +176,36 @@ def r1(ctx, facts):
     app = npos(f, [c for c in f.calls(r"::append\b") if is_this_field(call_obj(c), "_formatted_date")])
     ctx.ob("C13.R1g", "format_timestamp:buffer-cleared-first", bool(clr) and bool(app) and all(g_.dominates(clr, p) for p in app),
            "the cached output buffer is cleared on every path before the parts of this timestamp are appended (no stale text)", fn=f)
+    # R5: composition of the rendered text: clear; part 1; [zero field + digits]; part 2 iff the pattern has one — all for the same second
+    secs_v = None
+    p1 = [c for c in f.calls(r"StringFromTime::format_timestamp$") if is_this_field(call_obj(c), "_strftime_part_1")]
+    p2 = [c for c in f.calls(r"StringFromTime::format_timestamp$") if is_this_field(call_obj(c), "_strftime_part_2")]
+    def appended(c):
+        return [a for a in f.calls(r"::append\b") if is_this_field(call_obj(a), "_formatted_date") and in_subtree(c, a)]
+    a1 = [a for c in p1 for a in appended(c)]
+    a2 = [a for c in p2 for a in appended(c)]
+    frac = npos(f, [c for c in f.calls(r"::_write_fractional_seconds$")])
+    zero_app = [p for p in app if p not in npos(f, a1) and p not in npos(f, a2)]
+    ok1 = len(p1) == 1 and len(a1) == 1 and not g_.exists_path([g_.entry_node], [g_.exit_node], avoid_nodes=npos(f, a1)) and \
+        all(g_.dominates(npos(f, a1), q) for q in zero_app + frac + npos(f, a2)) and not g_.exists_path(zero_app + frac + npos(f, a2), npos(f, a1))
+    hp2 = [(b, t) for (b, t, c) in [(bid, "F" if core_and_neg(g_.term_cond(bid))[1] else "T", 0) for bid in g_.blocks
+                                    if g_.term_cond(bid) is not None and is_this_field(strip(core_and_neg(g_.term_cond(bid))[0], casts=True), "_has_format_part_2")]]
+    ok2 = len(p2) == 1 and len(a2) == 1 and bool(hp2) and not g_.exists_path([g_.entry_node], npos(f, a2), avoid_edges=hp2) and \
+        all(not g_.exists_path([tnode(g_, b)], [g_.exit_node], avoid_nodes=npos(f, a2), avoid_edges=[(b, other(l))]) for (b, l) in hp2) and \
+        not g_.exists_path(npos(f, a2), zero_app + frac)
+    same_sec = False
+    if p1 and p2:
+        v1, v2 = var_ref(p1[0]["args"][0]), var_ref(p2[0]["args"][0])
+        same_sec = v1 is not None and v1 == v2 and v1 in finits
+        if same_sec:
+            e = strip(finits[v1], casts=True)
+            same_sec = isnode(e) and e["k"] == "BinaryOperator" and e["op"] == "/" and const_val(e["rhs"]) == 1000000000
+    rets = [g_.node_ast(r) for r in g_.return_nodes()]
+    ret_ok = bool(rets) and all(any(is_call(x, r"::data$") and is_this_field(call_obj(x), "_formatted_date") for x in walk(r.get("val"))) and
+                                any(is_call(x, r"::size$") and is_this_field(call_obj(x), "_formatted_date") for x in walk(r.get("val"))) for r in rets)
+    ctx.ob("C13.R5a", "format_timestamp:composition", ok1 and ok2 and same_sec and ret_ok,
+           "the text is: strftime part 1 (always, first: %s), the fractional field, strftime part 2 exactly when the pattern has one "
+           "and last (%s), both parts for the same whole second = ns / 1e9 (%s); the result views the whole buffer (%s)" % (ok1, ok2, same_sec, ret_ok), fn=f)
     w = facts.need(TF + "::_write_fractional_seconds", "A")[0]
     mc = w.calls(r"^(std::)?memcpy$")
     ok = False
@@ -252,6 +283,7 @@ def r2(ctx, facts):
     sw = [n for n in ft.walk() if n["k"] == "SwitchStmt"]
     sw_ok = bool(sw) and any(x["k"] == "MemberExpr" and x.get("mname") == "second" for x in walk(sw[0]["cond"]))
     quantity = {"H": "hours", "k": "hours", "M": "minutes", "S": "seconds", "I": "hours12", "l": "hours12", "s": "epoch"}
+    finits_seconds = set()
     # which locals are hours / minutes / seconds: by their defining arithmetic
     def classify(val):
         v = var_ref(val)
@@ -267,11 +299,52 @@ def r2(ctx, facts):
             return "epoch"
         s = strip(val, casts=True)
         if isnode(s) and s["k"] == "ConditionalOperator":
-            hs = set(classify(x) for x in walk(s) if x["k"] == "DeclRefExpr" and x.get("dk") == "Var")
-            consts = set(x.get("val") for x in walk(s) if x["k"] == "IntegerLiteral")
-            if hs == {"hours"} and consts == {0, 12}:
-                return "hours12"
+            return "hours12" if twelve_hour_form(s) else "?"
         return "?"
+
+    def is_hours(e):
+        v = var_ref(e)
+        return v is not None and classify({"k": "DeclRefExpr", "dk": "Var", "did": v, "name": "", "id": -1}) == "hours"
+
+    def twelve_hour_form(c):
+        """h == 0 ? 12 : (h > 12 ? h - 12 : h)   (or the mirrored tests), or h % 12 == 0 ? 12 : h % 12 — the strftime %I / %l value"""
+        def mod12(e):
+            e = strip(e, casts=True)
+            return isnode(e) and e["k"] == "BinaryOperator" and e["op"] == "%" and is_hours(e["lhs"]) and const_val(e["rhs"]) == 12
+        def eq0(e):  # returns 'T' / 'F' = the outcome on which the operand is zero, and the operand
+            e = strip(e, casts=True)
+            if isnode(e) and e["k"] == "BinaryOperator" and e["op"] in ("==", "!="):
+                for a, b in ((e["lhs"], e["rhs"]), (e["rhs"], e["lhs"])):
+                    if const_val(b) == 0:
+                        return ("T" if e["op"] == "==" else "F"), a
+            return None, None
+        lab, subj = eq0(c.get("cond"))
+        if lab is None:
+            return False
+        zero_arm, rest = (c.get("then"), c.get("else")) if lab == "T" else (c.get("else"), c.get("then"))
+        if const_val(zero_arm) != 12:
+            return False
+        rest = strip(rest, casts=True)
+        if mod12(subj):
+            return mod12(rest)
+        if not is_hours(subj):
+            return False
+        if not (isnode(rest) and rest["k"] == "ConditionalOperator"):
+            return False
+        cs = cmp_sides_(rest.get("cond"))
+        if not cs:
+            return False
+        op, a, b = cs  # a op b with op in < <=
+        t_, e_ = strip(rest.get("then"), casts=True), strip(rest.get("else"), casts=True)
+        def minus12(e):
+            return isnode(e) and e["k"] == "BinaryOperator" and e["op"] == "-" and is_hours(e["lhs"]) and const_val(e["rhs"]) == 12
+        # 12 < h ? h - 12 : h        |  h <= 12 ? h : h - 12   |  13 <= h ? h - 12 : h   |  h < 13 ? h : h - 12
+        if is_hours(b) and ((op == "<" and const_val(a) == 12) or (op == "<=" and const_val(a) == 13)):
+            return minus12(t_) and is_hours(e_)
+        if is_hours(a) and ((op == "<=" and const_val(b) == 12) or (op == "<" and const_val(b) == 13)):
+            return is_hours(t_) and minus12(e_)
+        return False
+
     for l in letters:
         r = rec.get("%" + l)
         c = cases.get(l)
@@ -288,8 +361,75 @@ def r2(ctx, facts):
     ctx.floor("C13.R2c", "format_type enumerators", len(letters), 7)
     # hours/minutes/seconds decomposition of the cached seconds
     names = {classify({"k": "DeclRefExpr", "dk": "Var", "did": v, "name": "", "id": -1}) for v in finits}
-    ctx.ob("C13.R2d", "format_timestamp:hms-decomposition", {"hours", "minutes"} <= names,
-           "hours = total/3600 and minutes = remainder/60 are derived from the cached seconds-of-day", fn=ft)
+    # the chain T := cached seconds; hours = T/3600; T -= hours*3600; minutes = T/60; T -= minutes*60; seconds = T — in this order
+    fg = ft.g
+    chain_ok, why = False, "decomposition not recognised"
+    hv = [v for v in finits if isnode(strip(finits[v], casts=True)) and strip(finits[v], casts=True)["k"] == "BinaryOperator" and
+          strip(finits[v], casts=True)["op"] == "/" and const_val(strip(finits[v], casts=True)["rhs"]) == 3600]
+    mv = [v for v in finits if isnode(strip(finits[v], casts=True)) and strip(finits[v], casts=True)["k"] == "BinaryOperator" and
+          strip(finits[v], casts=True)["op"] == "/" and const_val(strip(finits[v], casts=True)["rhs"]) == 60]
+    if len(hv) == 1 and len(mv) == 1:
+        T = var_ref(strip(finits[hv[0]], casts=True)["lhs"])
+        same_T = T is not None and var_ref(strip(finits[mv[0]], casts=True)["lhs"]) == T
+        t_init = is_this_field(strip(finits.get(T), casts=True), "_cached_seconds") if T in finits else False
+        subs = [n for n in ft.walk() if n["k"] == "CompoundAssignOperator" and n["op"] == "-=" and var_ref(n["lhs"]) == T]
+        def prod(n, v, k):
+            r = strip(n["rhs"], casts=True)
+            return isnode(r) and r["k"] == "BinaryOperator" and r["op"] == "*" and \
+                ((var_ref(r["lhs"]) == v and const_val(r["rhs"]) == k) or (var_ref(r["rhs"]) == v and const_val(r["lhs"]) == k))
+        sub_h = [n for n in subs if prod(n, hv[0], 3600)]
+        sub_m = [n for n in subs if prod(n, mv[0], 60)]
+        sv = [v for v in finits if v not in (T,) and var_ref(finits[v]) == T]
+        dpos = lambda v: fg.pos_of(lambda n: isnode(n) and n.get("k") in ("Var", "DeclStmt") and (n.get("did") == v or any(d.get("did") == v for d in n.get("decls") or [])))
+        if same_T and t_init and len(subs) == 2 and len(sub_h) == 1 and len(sub_m) == 1 and len(sv) == 1:
+            seq = [dpos(T), dpos(hv[0]), fg.positions(sub_h[0]), dpos(mv[0]), fg.positions(sub_m[0]), dpos(sv[0])]
+            chain_ok = all(seq) and all(all(fg.dominates(seq[i], q) for q in seq[i + 1]) and not fg.exists_path(seq[i + 1], seq[i]) for i in range(len(seq) - 1))
+            why = "T = cached seconds of day; hours = T/3600; T -= hours*3600; minutes = T/60; T -= minutes*60; seconds = T, in this order: %s" % chain_ok
+            # the three results are what the cases print: 'seconds' is the variable bound last
+            if chain_ok:
+                finits_seconds.add(sv[0])
+        else:
+            why = "same running total: %s, starts from _cached_seconds: %s, remainder steps: %d (hours*3600: %d, minutes*60: %d), seconds = remainder: %d" % (
+                same_T, t_init, len(subs), len(sub_h), len(sub_m), len(sv))
+    ctx.ob("C13.R2d", "format_timestamp:hms-decomposition", {"hours", "minutes"} <= names and chain_ok,
+           "hours, minutes and seconds are the successive quotients/remainder of the cached seconds-of-day (%s)" % why, fn=ft)
+    # R6a: between the rebuild and the incremental update only two early exits exist: nothing to patch, and the same second again
+    upd = npos(ft, [a for a in ft.walk() if a["k"] == "CompoundAssignOperator" and a["op"] == "+=" and is_this_field(a["lhs"], "_cached_seconds")])
+    ts = ft.rec["params"][0]["did"]
+    allowed = []
+    for bid, b in fg.blocks.items():
+        c = fg.term_cond(bid)
+        if c is None:
+            continue
+        core, neg = core_and_neg(c)
+        cs_ = strip(core, casts=True)
+        if is_call(cs_, r"std::vector<.*>::empty$") and is_this_field(call_obj(cs_), "_cached_indexes"):
+            allowed.append((bid, "F" if neg else "T"))
+        nc = norm_cmp(c)
+        if nc and nc[0] in ("==", "!=") and {nc[1], nc[2]} == {"v%d" % ts, "this._cached_timestamp"}:
+            allowed.append((bid, "T" if nc[0] == "==" else "F"))
+        if nc and nc[0] in ("<", "<=") and nc[1] == "v%d" % ts and nc[2] == "this._cached_timestamp" and nc[0] == "<":
+            allowed.append((bid, "T"))  # the backwards guard (C13.R4a)
+    rets = fg.return_nodes()
+    ok = bool(upd) and len(allowed) >= 3 and not fg.exists_path([fg.entry_node], rets, avoid_nodes=upd, avoid_edges=allowed) and \
+        all(not fg.exists_path([tnode(fg, b)], upd, avoid_edges=[(b, other(l))]) for (b, l) in allowed)
+    ctx.ob("C13.R6a", "StringFromTime::format_timestamp:no-stale-return", ok,
+           "the cached string is returned without the incremental hour/minute/second update only when the timestamp went backwards "
+           "(fallback), when the pattern has nothing to patch (_cached_indexes.empty()) or when the second is the cached one "
+           "(%d such exits); every other path applies the update" % len(allowed), fn=ft)
+    # R6b: every recorded position is patched: the loop runs over all of _cached_indexes without leaving early
+    loops = [n for n in ft.walk() if n["k"] == "CXXForRangeStmt" and is_this_field(strip(n.get("range")), "_cached_indexes")]
+    if not loops:
+        from rules.common import other_loop_over
+        other_loop_over(ft, "_cached_indexes", "StringFromTime::format_timestamp")
+    early = [x for lp in loops for x in walk(lp.get("body")) if x["k"] in ("ReturnStmt", "GotoStmt", "ContinueStmt")]
+    sw_breaks_only = all(any(a["k"] == "SwitchStmt" for a in ft.ancestors(x)) for lp in loops for x in walk(lp.get("body")) if x["k"] == "BreakStmt")
+    lp_pos = [p for lp in loops for p in fg.positions(lp.get("body"))] if False else None
+    after_upd = bool(loops) and bool(upd) and all(not fg.exists_path([fg.entry_node], fg.positions(c_), avoid_nodes=upd)
+                                                  for c_ in ft.calls(r"^fmtquill::(v\d+::)?format_to"))
+    ctx.ob("C13.R6b", "StringFromTime::format_timestamp:all-positions-patched", bool(loops) and not early and sw_breaks_only and after_upd,
+           "every recorded position is patched after the cached time of day was advanced (range-for over _cached_indexes, no early "
+           "exit, 'break' only inside the switch)", fn=ft)
 
 
 def r3(ctx, facts):
